@@ -436,7 +436,7 @@ def replay_edges(c, adapter, edges_path, walks=200, wlen=50, clause="replay", ti
 
 
 def validate_scenarios(c, family, module, trace_path, cfg=None, reset_op="reset", chunks=None, max_rej=4,
-                       timeout=1800, heap="4g"):
+                       timeout=1800, heap="4g", env=None, lines_per_chunk=20000):
     """Pattern T over many concatenated scenarios. The trace is cut into chunks at scenario boundaries
     (lines with op == reset_op), chunks are validated in parallel; when a chunk is rejected the
     offending scenario is recorded and removed and the rest of the chunk is validated again, so one
@@ -448,7 +448,7 @@ def validate_scenarios(c, family, module, trace_path, cfg=None, reset_op="reset"
     if not starts or starts[0] != 0:
         raise Infra("trace does not start with a %s line" % reset_op)
     nsc = len(starts)
-    chunks = chunks or min(NCPU, max(1, len(lines) // 20000))
+    chunks = chunks or min(NCPU, max(1, len(lines) // lines_per_chunk))
     per = (nsc + chunks - 1) // chunks
     bounds = starts + [len(lines)]
     pieces = []
@@ -464,10 +464,17 @@ def validate_scenarios(c, family, module, trace_path, cfg=None, reset_op="reset"
             tp = c.path("chunk-%s-%d-%d.ndjson" % (module, idx, rej_here))
             with open(tp, "w") as f:
                 f.writelines(seg)
-            ok, rej, res = c.validate_trace(family, module, tp, cfg=cfg, timeout=timeout, heap=heap)
+            ok, rej, res = c.validate_trace(family, module, tp, cfg=cfg, timeout=timeout, heap=heap, env=env)
             os.unlink(tp)
             with lock:
                 result["runs"] += 1
+                for sl in res.out.splitlines():
+                    if sl.startswith('<<"STATS"'):
+                        nums = [int(x) for x in re.findall(r"-?\d+", sl)]
+                        acc = result.setdefault("stats", [0] * len(nums))
+                        for i, x in enumerate(nums):
+                            if i < len(acc):
+                                acc[i] += x
             if ok:
                 with lock:
                     result["validated_lines"] += len(seg)
